@@ -170,8 +170,8 @@ impl Property for C05 {
     }
     fn runs(&self, tier: Tier) -> u64 {
         match tier {
-            Tier::Quick => 20000,
-            Tier::Thorough => 200000,
+            Tier::Quick => 200000,
+            Tier::Thorough => 2000000,
         }
     }
     fn rule(&self) -> &'static str {
